@@ -360,7 +360,8 @@ class SchemaGen:
                     a.default = self.literal(a.type)
                     self.feats.add("input.default")
         # interfaces
-        iface_names = [names.type_name("If") for _ in range(rng.randrange(0, 1 + scale))]
+        hierarchy = "shape.iface_hierarchy" in self.dirty
+        iface_names = [names.type_name("If") for _ in range(rng.randrange(2, 4) if hierarchy else rng.randrange(0, 1 + scale))]
         for i, n in enumerate(iface_names):
             spec.interfaces[n] = ([], [])
         obj_names = [names.type_name("Ob") for _ in range(rng.randrange(2, 3 + 2 * scale))]
@@ -372,7 +373,7 @@ class SchemaGen:
         for i, n in enumerate(iface_names):
             fields = [self.make_field(0.35) for _ in range(rng.randrange(1, 4))]
             impl: List[str] = []
-            if i > 0 and rng.random() < 0.5:
+            if i > 0 and (hierarchy or rng.random() < 0.5):
                 parent = rng.choice(iface_names[:i])
                 impl = [parent] + list(spec.interfaces[parent][0])
                 self.feats.add("pos.interface_of_interface")
